@@ -34,6 +34,16 @@ def gen(rng, max_n=7, with_debug=True, with_setup=True, with_tags=True):
                                         const=False, tag=None, idx=[], ret_idx=False)
         specs.extend([mk_([], False), mk_([b0], False), mk_([b0], False), mk_([b0 + 2], True), mk_([b0 + 1, b0 + 3], True)])
         n = len(specs)
+    if with_debug and rng.random() < 0.3:
+        # motif: two independent sources L, R -> join J -> {report, probe*}: a run rooted at L only and targeted at J
+        # must not bring R along when probe* is pulled in
+        b0 = len(specs)
+        mk_ = lambda preds, debug: dict(preds=preds, prio=rng.choice([0, 1, 2]), debug=debug, setup=False,   # noqa: E731
+                                        const=False, tag=None, idx=[], ret_idx=False)
+        specs.extend([mk_([], False), mk_([], False), mk_([b0, b0 + 1], False), mk_([b0 + 2], True)])
+        if rng.random() < 0.5:
+            specs.append(mk_([b0 + 2], False))
+        n = len(specs)
     for i, s in enumerate(specs):
         if with_setup and not s["debug"] and rng.random() < 0.2 and all(specs[p]["setup"] for p in s["preds"]):
             s["setup"] = True
